@@ -57,7 +57,10 @@ def cells(tier):
         out.append({'kind': 'rounds', 'backend': 'dict', 'n': 2, 'rounds': 3,
                     'shape': 'mapping-rev'})
         for b in ('disk', 'redis', 'cloud'):
-            out.append({'kind': 'inject', 'backend': b, 'n': 2, 'K': 40})
+            out.append({'kind': 'inject', 'backend': b, 'n': 2, 'K': 40,
+                        'dur': 1})
+        out.append({'kind': 'inject', 'backend': 'disk', 'n': 2, 'K': 40,
+                    'dur': 0})
         for b in ('dict', 'redis'):
             out.append({'kind': 'sched', 'backend': b, 'n': 2, 'pools': 1})
         out.append({'kind': 'sched', 'backend': 'disk', 'n': 2, 'pools': 0})
@@ -68,7 +71,9 @@ def cells(tier):
             out.append({'kind': 'rounds', 'backend': b, 'n': 2, 'rounds': 2,
                         'shape': 'mapping', 'startup_race': 1})
         for b in ('disk', 'redis', 'cloud'):
-            out.append({'kind': 'inject', 'backend': b, 'n': 3, 'K': 70})
+            for dur in (0, 1):
+                out.append({'kind': 'inject', 'backend': b, 'n': 3, 'K': 70,
+                            'dur': dur})
         for b in backends:
             for shape in ('mapping', 'sequence', 'mapping-rev'):
                 out.append({'kind': 'rounds', 'backend': b, 'n': 4,
@@ -295,7 +300,7 @@ def run_inject(cell):
             return qc.Outcome.OK, None
         return qc.Outcome.MAPPING, per_rcpt_outcomes(rec, 3)
 
-    relay = qc.ScriptRelay(decide)
+    relay = qc.ScriptRelay(decide, duration=(lambda rec: 1) if cell.get('dur') else None)
 
     def backoff(envelope, attempts):
         if attempts >= 3:
